@@ -98,6 +98,7 @@ def handle (f : List String) : String :=
     let log := ",".intercalate (d.s.started.map (fun p => s!"{p.1}@{ord p.2}"))
     let g := match d.s.applied.getLast? with | some l => l | none => 0
     s!"log={log} {",".intercalate d.obs} g={g} n={d.s.applied.length}"
+  | "rename" :: _ => "-"
   | _ => "bad-case"
 
 end MtailVerif.Driver.C20
